@@ -2,9 +2,12 @@ package props
 
 import (
 	"bytes"
+	"errors"
 	"fmt"
+	"io"
 	"sort"
 	"strings"
+	"testing/iotest"
 
 	"github.com/ipfs/go-cid"
 	carv2 "github.com/ipld/go-car/v2"
@@ -57,6 +60,14 @@ func init() {
 		// a very wide digest (an identity CID just under / over the default 2 KiB CID limit is legal;
 		// the write side has no width limit, so the read side must take it back)
 		{refcar.MhIdentity, d(0x40, 2100), 29},
+		// digests that differ only beyond byte 32, in the 64-byte and in the 2100-byte bucket
+		{refcar.MhSha512, latePrefix(E1, 40), 31},
+		{refcar.MhSha512, latePrefix(E1, 63), 37},
+		{refcar.MhIdentity, latePrefix(d(0x40, 2100), 2099), 41},
+		// hash codes whose numeric order differs from the order of their serialized bytes (0x0100 > 0x12 but
+		// its little-endian bytes sort first), and that collide with sha2-256 when narrowed to 32 bits
+		{0x0100, D1, 43},
+		{1<<32 | 0x12, D1, 47},
 	}
 }
 
@@ -81,6 +92,9 @@ type C11Case struct {
 	Codec string   `json:"codec"`
 	Seq   []string `json:"seq,omitempty"`
 	SID   bool     `json:"storeid,omitempty"`
+	// flatten: which writing front end ("" = bs) and whether duplicate puts are de-duplicated
+	Writer string `json:"writer,omitempty"`
+	NoDup  bool   `json:"nodup,omitempty"`
 }
 
 func permutations(n int, emit func([]int)) {
@@ -135,6 +149,69 @@ func forEachAll(idx index.Index) string {
 	return fmt.Sprintf("%v/%v", l, err)
 }
 
+// forEachList renders ForEach's sequence with the offsets sorted inside each run of equal multihashes
+// (the order the format leaves open); ok=false when the index is not iterable.
+func forEachList(idx index.Index) (l []string, ok bool, err error) {
+	it, ok := idx.(index.IterableIndex)
+	if !ok {
+		return nil, false, nil
+	}
+	type e struct {
+		mh  string
+		off uint64
+	}
+	var es []e
+	err = it.ForEach(func(mh multihash.Multihash, o uint64) error {
+		es = append(es, e{string(mh), o})
+		return nil
+	})
+	for i := 0; i < len(es); {
+		j := i
+		for j < len(es) && es[j].mh == es[i].mh {
+			j++
+		}
+		sort.Slice(es[i:j], func(a, b int) bool { return es[i+a].off < es[i+b].off })
+		i = j
+	}
+	for _, x := range es {
+		l = append(l, fmt.Sprintf("%x@%d", x.mh, x.off))
+	}
+	// the order of iteration is index-specific: what is compared with the reference is the multiset
+	sort.Strings(l)
+	return l, true, err
+}
+
+// wantForEach is the multiset of (multihash, offset) pairs an iteration must yield, in canonical order.
+func wantForEach(recs []c11rec) []string {
+	rs := append([]c11rec{}, recs...)
+	sort.SliceStable(rs, func(i, j int) bool {
+		a, b := rs[i], rs[j]
+		if a.code != b.code {
+			return a.code < b.code
+		}
+		if len(a.digest) != len(b.digest) {
+			return len(a.digest) < len(b.digest)
+		}
+		if c := bytes.Compare(a.digest, b.digest); c != 0 {
+			return c < 0
+		}
+		return a.off < b.off
+	})
+	var l []string
+	for _, r := range rs {
+		mh, _ := multihash.Encode(r.digest, r.code)
+		l = append(l, fmt.Sprintf("%x@%d", mh, r.off))
+	}
+	sort.Strings(l)
+	return l
+}
+
+type c11SeekFail struct{ io.Reader }
+
+func (c11SeekFail) Seek(int64, int) (int64, error) { return 0, errors.New("illegal seek") }
+
+var errC11Stop = errors.New("c11 stop")
+
 // normalise sorts offsets inside each run of equal digests (the order the format leaves open).
 func normaliseIndexBytes(b []byte) ([]byte, []refcar.IndexRecord, error) {
 	codec, recs, err := refcar.DecodeIndex(b)
@@ -148,6 +225,10 @@ func runC11(c any, x *kit.Ctx) {
 	cs := c.(C11Case)
 	if cs.Kind == "flatten" {
 		runC11Flatten(cs, x)
+		return
+	}
+	if cs.Kind == "insertion" {
+		runC11Insertion(cs, x)
 		return
 	}
 	codec := codecOf(cs.Codec)
@@ -168,7 +249,8 @@ func runC11(c any, x *kit.Ctx) {
 	codecN := uint64(codec)
 	wantBytes := refcar.EncodeIndex(codecN, refRecs)
 	var wantLookup strings.Builder
-	for _, q := range c11Alphabet {
+	wantOffs := make([][]uint64, len(c11Alphabet))
+	for qi, q := range c11Alphabet {
 		var offs []uint64
 		for _, r := range recs {
 			if bytes.Equal(r.digest, q.digest) && (codecN == refcar.CodecIndexSorted || r.code == q.code) {
@@ -176,6 +258,7 @@ func runC11(c any, x *kit.Ctx) {
 			}
 		}
 		sort.Slice(offs, func(i, j int) bool { return offs[i] < offs[j] })
+		wantOffs[qi] = offs
 		if len(offs) == 0 {
 			fmt.Fprintf(&wantLookup, "[]/%v;", index.ErrNotFound)
 		} else {
@@ -243,6 +326,88 @@ func runC11(c any, x *kit.Ctx) {
 		if got := lookupAll(idx, queries); got != wantLookup.String() {
 			x.Fail("c11:lookup:"+tag, "GetAll answers %s want %s", got, wantLookup.String())
 		}
+		// Load must not disturb the caller's records
+		for k, i := range p {
+			if !load[k].Cid.Equals(recs[i].cid()) || load[k].Offset != recs[i].off {
+				x.Fail("c11:load-mutates-input:"+tag, "Load changed the caller's record slice at %d", k)
+				break
+			}
+		}
+		// serializing twice gives the same bytes
+		var again bytes.Buffer
+		if n2, err := index.WriteTo(idx, &again); err != nil || n2 != n || !bytes.Equal(again.Bytes(), buf.Bytes()) {
+			x.Fail("c11:rewrite-same-index:"+tag, "a second WriteTo of the same index differs (err %v)", err)
+		}
+		// a lookup that stops after the first hit: exactly one callback, no error, an offset of that key; GetFirst likewise
+		for qi, q := range queries[:len(c11Alphabet)] {
+			calls := 0
+			var first uint64
+			err := idx.GetAll(q, func(o uint64) bool { calls++; first = o; return false })
+			gf, gerr := index.GetFirst(idx, q)
+			if len(wantOffs[qi]) == 0 {
+				if !errors.Is(err, index.ErrNotFound) || calls != 0 || !errors.Is(gerr, index.ErrNotFound) {
+					x.Fail("c11:stop-lookup-absent:"+tag, "absent key #%d: GetAll err %v after %d callbacks, GetFirst err %v", qi, err, calls, gerr)
+				}
+				continue
+			}
+			in := func(o uint64) bool {
+				for _, w := range wantOffs[qi] {
+					if w == o {
+						return true
+					}
+				}
+				return false
+			}
+			if err != nil || calls != 1 || !in(first) {
+				x.Fail("c11:stop-lookup:"+tag, "GetAll with a callback that stops: err %v, %d callbacks, offset %d not in %v", err, calls, first, wantOffs[qi])
+			}
+			if gerr != nil || !in(gf) {
+				x.Fail("c11:getfirst:"+tag, "GetFirst returned %d, %v; offsets of that key are %v", gf, gerr, wantOffs[qi])
+			}
+		}
+		// iteration, against the order the format implies (multihash index) - before and after the round trip
+		if l, ok, err := forEachList(idx); ok {
+			if want := wantForEach(recs); err != nil || fmt.Sprint(l) != fmt.Sprint(want) {
+				x.Fail("c11:foreach:"+tag, "ForEach yields %v (err %v) want %v", l, err, want)
+			}
+			// a callback error at the k-th call comes back unchanged and stops the iteration
+			it := idx.(index.IterableIndex)
+			for k := 0; k < len(recs); k++ {
+				calls := 0
+				err := it.ForEach(func(multihash.Multihash, uint64) error {
+					calls++
+					if calls == k+1 {
+						return errC11Stop
+					}
+					return nil
+				})
+				if !errors.Is(err, errC11Stop) || calls != k+1 {
+					x.Fail("c11:foreach-abort:"+tag, "callback failing at call %d: ForEach returned %v after %d calls", k+1, err, calls)
+				}
+			}
+		}
+		// the same records inserted by two Load calls (every split point of this order)
+		for k := 1; k < len(load); k++ {
+			split, _ := index.New(codec)
+			if err := split.Load(load[:k]); err != nil {
+				x.Fail("c11:load-error:"+tag, "Load failed: %v", err)
+				break
+			}
+			if err := split.Load(load[k:]); err != nil {
+				x.Fail("c11:load-error:"+tag, "Load failed: %v", err)
+				break
+			}
+			var sb bytes.Buffer
+			if _, err := index.WriteTo(split, &sb); err != nil {
+				x.Fail("c11:write-error:"+tag, "WriteTo failed: %v", err)
+				break
+			}
+			norm, _, err := normaliseIndexBytes(sb.Bytes())
+			if err != nil || !bytes.Equal(norm, wantBytes) || lookupAll(split, queries) != wantLookup.String() {
+				x.Fail("c11:split-load:"+tag, "records inserted by Load(first %d) then Load(the other %d) give a different index than one Load of all (decode err %v): lookups %s want %s", k, len(load)-k, err, lookupAll(split, queries), wantLookup.String())
+				break
+			}
+		}
 		// round trip
 		idx2, err := index.ReadFrom(bytes.NewReader(buf.Bytes()))
 		if err != nil {
@@ -257,6 +422,35 @@ func runC11(c any, x *kit.Ctx) {
 		}
 		if a, b := forEachAll(idx), forEachAll(idx2); a != b {
 			x.Fail("c11:roundtrip-foreach:"+tag, "ForEach differs after round trip: %s vs %s", a, b)
+		}
+		if l, ok, err := forEachList(idx2); ok {
+			if want := wantForEach(recs); err != nil || fmt.Sprint(l) != fmt.Sprint(want) {
+				x.Fail("c11:foreach-after-roundtrip:"+tag, "ForEach of the index read back yields %v (err %v) want %v", l, err, want)
+			}
+		}
+		// the other reader capability classes: seekable without ReadByte, Seek method that fails, one byte per
+		// Read, trailing bytes after the index
+		junk := append(append([]byte{}, buf.Bytes()...), 0xde, 0xad, 0xbe, 0xef, 0, 0, 0, 0, 0, 0, 0, 0)
+		for _, rk := range []struct {
+			name string
+			r    io.Reader
+		}{
+			{"section", io.NewSectionReader(bytes.NewReader(buf.Bytes()), 0, int64(buf.Len()))},
+			{"seekfail", c11SeekFail{bytes.NewReader(buf.Bytes())}},
+			{"onebyte", iotest.OneByteReader(bytes.NewReader(buf.Bytes()))},
+			{"dataerr", iotest.DataErrReader(bytes.NewReader(buf.Bytes()))},
+			{"trailing", bytes.NewReader(junk)},
+			{"trailing-stream", drv.PlainReader{R: bytes.NewReader(junk)}},
+		} {
+			ix, err := index.ReadFrom(rk.r)
+			if err != nil {
+				x.Fail("c11:roundtrip-reader:"+rk.name+":"+tag, "ReadFrom over a %s reader failed: %v", rk.name, err)
+				continue
+			}
+			var rb bytes.Buffer
+			if _, err := index.WriteTo(ix, &rb); err != nil || !bytes.Equal(rb.Bytes(), buf.Bytes()) || lookupAll(ix, queries) != lookupAll(idx, queries) {
+				x.Fail("c11:roundtrip-reader:"+rk.name+":"+tag, "index read over a %s reader differs (err %v)", rk.name, err)
+			}
 		}
 		// the reader through a plain stream too
 		idx3, err := index.ReadFrom(drv.PlainReader{R: bytes.NewReader(buf.Bytes())})
@@ -275,11 +469,120 @@ func runC11(c any, x *kit.Ctx) {
 	}
 }
 
+// runC11Insertion: the in-memory insertion index of a writing session, built directly from the records.
+func runC11Insertion(cs C11Case, x *kit.Ctx) {
+	var recs []c11rec
+	for _, i := range cs.Recs {
+		recs = append(recs, c11Alphabet[i])
+	}
+	var refRecs []refcar.IndexRecord
+	for _, r := range recs {
+		refRecs = append(refRecs, refcar.IndexRecord{MhCode: r.code, Digest: r.digest, Offset: r.off})
+	}
+	var queries []cid.Cid
+	for _, r := range c11Alphabet {
+		queries = append(queries, r.cid())
+	}
+	// the insertion index is keyed by the bare digest, as the digest-only codec is
+	var want strings.Builder
+	for _, q := range c11Alphabet {
+		var offs []uint64
+		for _, r := range recs {
+			if bytes.Equal(r.digest, q.digest) {
+				offs = append(offs, r.off)
+			}
+		}
+		sort.Slice(offs, func(i, j int) bool { return offs[i] < offs[j] })
+		if len(offs) == 0 {
+			fmt.Fprintf(&want, "[]/%v;", index.ErrNotFound)
+		} else {
+			fmt.Fprintf(&want, "%v/<nil>;", offs)
+		}
+	}
+	for _, how := range []string{"insert", "load", "load-reversed"} {
+		ii := index.NewInsertionIndex()
+		x.Eval(1)
+		x.Transition(len(recs))
+		switch how {
+		case "insert":
+			for _, r := range recs {
+				ii.InsertNoReplace(r.cid(), r.off)
+			}
+		default:
+			var load []index.Record
+			for _, r := range recs {
+				load = append(load, index.Record{Cid: r.cid(), Offset: r.off})
+			}
+			if how == "load-reversed" {
+				for i, j := 0, len(load)-1; i < j; i, j = i+1, j-1 {
+					load[i], load[j] = load[j], load[i]
+				}
+			}
+			if err := ii.Load(load); err != nil {
+				x.Fail("c11:insertion:load-error", "Load failed: %v", err)
+				continue
+			}
+		}
+		if got := lookupAll(ii, queries); got != want.String() {
+			x.Fail("c11:insertion:lookup", "insertion index (%s) answers %s want %s", how, got, want.String())
+		}
+		if l, _, err := forEachList(ii); err != nil || fmt.Sprint(l) != fmt.Sprint(wantForEach(recs)) {
+			x.Fail("c11:insertion:foreach", "insertion index (%s) iterates %v (err %v) want %v", how, l, err, wantForEach(recs))
+		}
+		var cl []string
+		ii.ForEachCid(func(c cid.Cid, o uint64) error {
+			cl = append(cl, fmt.Sprintf("%x@%d", []byte(c.Hash()), o))
+			return nil
+		})
+		sort.Strings(cl)
+		if fmt.Sprint(cl) != fmt.Sprint(wantForEach(recs)) {
+			x.Fail("c11:insertion:foreachcid", "insertion index (%s) iterates CIDs %v want %v", how, cl, wantForEach(recs))
+		}
+		// the writer's byte count
+		var buf bytes.Buffer
+		n, err := index.WriteTo(ii, &buf)
+		if err != nil {
+			x.Fail("c11:insertion:write-error", "WriteTo failed: %v", err)
+		} else if n != uint64(buf.Len()) {
+			x.Fail("c11:insertion:write-count", "WriteTo of an insertion index with %d records reports %d bytes but wrote %d", len(recs), n, buf.Len())
+		}
+		// flattening into either on-disk codec gives that codec's canonical index of the same records
+		for _, cn := range []string{"sorted", "mh"} {
+			flat, err := ii.Flatten(codecOf(cn))
+			if err != nil {
+				x.Fail("c11:insertion:flatten-error:"+cn, "Flatten failed: %v", err)
+				continue
+			}
+			var fb bytes.Buffer
+			if _, err := index.WriteTo(flat, &fb); err != nil {
+				x.Fail("c11:insertion:flatten-error:"+cn, "WriteTo failed: %v", err)
+				continue
+			}
+			norm, _, err := normaliseIndexBytes(fb.Bytes())
+			if err != nil || !bytes.Equal(norm, refcar.EncodeIndex(uint64(codecOf(cn)), refRecs)) {
+				x.Fail("c11:insertion:flatten-bytes:"+cn, "Flatten(%s) of the insertion index (%s) is not the canonical index of its records (decode err %v)", cn, how, err)
+			}
+		}
+	}
+	x.State(fmt.Sprintf("ins|%v", cs.Recs))
+	x.Outcome(fmt.Sprintf("insertion n=%d", len(recs)))
+	if len(recs) >= 2 {
+		x.Nontrivial(fmt.Sprintf("ins|%v", cs.Recs))
+	}
+}
+
 func runC11Flatten(cs C11Case, x *kit.Ctx) {
 	roots, _, _ := kit.Roots("a")
 	blks := kit.Bs(cs.Seq)
-	o := drv.Opts{Codec: cs.Codec, StoreID: cs.SID, AllowDup: true}
-	res, err := drv.Write("bs", x.Dir, roots, blks, o)
+	o := drv.Opts{Codec: cs.Codec, StoreID: cs.SID, AllowDup: !cs.NoDup}
+	wk := cs.Writer
+	if wk == "" {
+		wk = "bs"
+	}
+	if wk == "def-path" && len(blks) == 0 {
+		return // a deferred writer that never saw a Put creates no file (C20)
+	}
+	res, err := drv.Write(wk, x.Dir, roots, blks, o)
 	x.Eval(1)
 	x.Transition(len(blks) + 2)
 	if err != nil || res.FinErr != nil {
@@ -306,9 +609,33 @@ func runC11Flatten(cs C11Case, x *kit.Ctx) {
 		x.Fail("c11:flatten-read", "embedded index unreadable: %v", err)
 		return
 	}
+	// the codec is the requested one, in the file, in the flattened and in the regenerated index
+	if wantCodec := uint64(codecOf(cs.Codec)); f.IndexCodec != wantCodec || uint64(flat.Codec()) != wantCodec || uint64(gen.Codec()) != wantCodec {
+		x.Fail("c11:flatten-codec:"+wk, "requested index codec %#x: file has %#x, embedded index reads as %#x, GenerateIndex gives %#x", wantCodec, f.IndexCodec, uint64(flat.Codec()), uint64(gen.Codec()))
+	}
+	// ... and it is the canonical index of the payload's sections (not merely equal to the regenerated one)
+	if na, _, err := normaliseIndexBytes(f.IndexRaw); err != nil || !bytes.Equal(na, refcar.EncodeIndex(f.IndexCodec, refcar.RecordsOf(f.Payload, cs.SID))) {
+		x.Fail("c11:flatten-vs-payload:"+wk, "the flattened session index is not the index of the payload's sections (decode err %v)", err)
+	}
+	// the library's own window on the embedded index
+	if rd, err := carv2.NewReader(bytes.NewReader(res.Bytes)); err != nil {
+		x.Fail("c11:flatten-read", "NewReader: %v", err)
+	} else if ir, err := rd.IndexReader(); err != nil || ir == nil {
+		x.Fail("c11:flatten-read", "IndexReader: %v", err)
+	} else if viaReader, err := index.ReadFrom(ir); err != nil {
+		x.Fail("c11:flatten-read", "ReadFrom(IndexReader()): %v", err)
+	} else {
+		var vb bytes.Buffer
+		if _, err := index.WriteTo(viaReader, &vb); err != nil || !bytes.Equal(vb.Bytes(), f.IndexRaw) {
+			x.Fail("c11:flatten-indexreader:"+wk, "index read through Reader.IndexReader() re-serializes differently from the embedded bytes (err %v)", err)
+		}
+	}
 	var queries []cid.Cid
 	for _, n := range kit.AlphaOrder {
 		queries = append(queries, kit.B(n).Cid)
+	}
+	for _, b := range blks {
+		queries = append(queries, b.Cid)
 	}
 	queries = append(queries, kit.Absent.Cid)
 	if a, b := lookupAll(flat, queries), lookupAll(gen, queries); a != b {
@@ -334,7 +661,7 @@ func runC11Flatten(cs C11Case, x *kit.Ctx) {
 	x.State(fmt.Sprintf("flat|%x", f.IndexRaw))
 	x.Outcome(fmt.Sprintf("flatten repeats=%v", repeats))
 	if len(f.Index) >= 2 {
-		x.Nontrivial(fmt.Sprintf("flat|%v|%s|%v", cs.Seq, cs.Codec, cs.SID))
+		x.Nontrivial(fmt.Sprintf("flat|%v|%s|%v|%s|%v", cs.Seq, cs.Codec, cs.SID, wk, cs.NoDup))
 	}
 }
 
@@ -349,6 +676,7 @@ func genC11(tier string, emit func(any)) {
 		for _, codec := range []string{"sorted", "mh"} {
 			emit(C11Case{Kind: "multiset", Recs: append([]int{}, cur...), Codec: codec})
 		}
+		emit(C11Case{Kind: "insertion", Recs: append([]int{}, cur...)})
 		if len(cur) == maxN {
 			return
 		}
@@ -366,6 +694,11 @@ func genC11(tier string, emit func(any)) {
 		for _, codec := range []string{"sorted", "mh"} {
 			for _, sid := range []bool{false, true} {
 				emit(C11Case{Kind: "flatten", Seq: s, Codec: codec, SID: sid})
+				for _, wk := range []string{"bsmany", "st-rw", "st-w", "def-path"} {
+					emit(C11Case{Kind: "flatten", Seq: s, Codec: codec, SID: sid, Writer: wk})
+				}
+				emit(C11Case{Kind: "flatten", Seq: s, Codec: codec, SID: sid, NoDup: true})
+				emit(C11Case{Kind: "flatten", Seq: s, Codec: codec, SID: sid, NoDup: true, Writer: "st-rw"})
 			}
 		}
 	})
